@@ -102,12 +102,14 @@ def run_params(case):
         put0 = len(cf.param.param_updater.request_queue.put_log)
         calls = {'param': [], 'group': [], 'all': []}
         stale_in_cb = []
+        once_calls = {}
         box_cb = {}
         names = ['%s.%s' % (p['group'], p['name']) for p in toc]
         for i, p in enumerate(toc):
             if i % 3 == 0:
                 # a one-shot listener registered before the permanent one: it takes itself off the list from inside its call
                 def once(n, v, p=p, box=[]):
+                    once_calls[n] = once_calls.get(n, 0) + 1
                     if not box:
                         box.append(1)
                         cf.param.remove_update_callback(group=p['group'], name=p['name'], cb=box_cb[(p['group'], p['name'])])
@@ -392,6 +394,12 @@ def run_params(case):
                 out.fail('param:get-raised', '%s: get_value(%s) raised %r' % (desc, r['name'], r['raised']))
         cf.close_link()
         s.sleep(2.0)
+    # every listener of a parameter gets its value: the one-shot listeners (registered first) saw exactly the first update
+    for n_ in sorted(set(n for (t_, n, v) in calls['param'])):
+        if n_ in ['%s.%s' % (p['group'], p['name']) for i, p in enumerate(toc) if i % 3 == 0] and once_calls.get(n_, 0) != 1:
+            out.fail('param:listener-missed', '%s: %s was updated %d time(s), the one-shot listener registered before the permanent one was called %d time(s)' % (
+                desc, n_, len([1 for (t_, n, v) in calls['param'] if n == n_]), once_calls.get(n_, 0)))
+            break
     if stale_in_cb:
         t_, n_, v_, c_ = stale_in_cb[0]
         out.fail('param:cache-behind-notification', '%s: listener of %s notified of %r at %.4f, get_value() inside it returned %r' % (desc, n_, v_, t_, c_))
